@@ -41,7 +41,7 @@ func (e *Engine) collectDynTypes() {
 func (e *Engine) encodeFunction(name string) (fe *FuncEnc, err error) {
 	fn := e.funcs[name]
 	fe = &FuncEnc{eng: e, fn: fn, name: name, con: e.contracts[name], declared: map[string]bool{}, inlined: map[string]bool{},
-		trusted: map[string]bool{}, assumes: map[string]bool{}}
+		trusted: map[string]bool{}, assumes: map[string]bool{}, bvOffsets: map[string]bvOffset{}}
 	defer func() {
 		if r := recover(); r != nil {
 			if ee, ok := r.(*EngineError); ok {
@@ -74,6 +74,40 @@ func (e *Engine) encodeFunction(name string) (fe *FuncEnc, err error) {
 		fe.assume(tBool(true), tNot(fe.comp(st, "G_io_Exited", SBool)))
 	}
 	f.entry = st.clone()
+	icon, msig := e.ifaceContractFor(fn)
+	if icon != nil {
+		inames := map[string]TV{"recv": {fe.toVal(f.vals[fn.Params[0]], fn.Params[0].Type()), nil}}
+		for k := 0; k < msig.Params().Len() && k+1 < len(fn.Params); k++ {
+			n := msig.Params().At(k).Name()
+			if n != "" && n != "_" {
+				inames[n] = TV{f.vals[fn.Params[k+1]], fn.Params[k+1].Type()}
+			}
+		}
+		if fe.con == nil {
+			fe.con = &Contract{Func: name, Props: icon.Props, Loops: map[int]*LoopContract{}}
+		} else {
+			cc := *fe.con
+			for _, p := range icon.Props {
+				if !contains(cc.Props, p) {
+					cc.Props = append(append([]string{}, cc.Props...), p)
+				}
+			}
+			fe.con = &cc
+		}
+		for k, v := range inames {
+			f.params[k] = v.T
+			f.ptypes[k] = v.Typ
+		}
+		rq := append([]*Clause{}, icon.Requires...)
+		fe.con.Requires = append(rq, fe.con.Requires...)
+		en := append([]*Clause{}, fe.con.Ensures...)
+		for _, c := range icon.Ensures {
+			cc := *c
+			cc.Label = "iface." + c.Label
+			en = append(en, &cc)
+		}
+		fe.con.Ensures = en
+	}
 	if fe.con != nil {
 		fe.props = fe.con.Props
 		for _, rq := range fe.con.Requires {
@@ -83,6 +117,7 @@ func (e *Engine) encodeFunction(name string) (fe *FuncEnc, err error) {
 		f.entry = st.clone()
 	}
 	fe.execFrame(f, st, tBool(true))
+	f.curBlock = nil
 	// exit
 	if len(f.rets) > 0 && fe.con != nil && len(fe.con.Ensures) > 0 {
 		var ins []inEdge
@@ -584,3 +619,42 @@ var globalAssumptions = []string{
 }
 
 var notDecided = map[string][]string{}
+
+// ifaceContractFor: if fn implements a method of an interface under contract, returns that contract and the bindings of the
+// interface method's parameter names (and `recv`) to fn's parameters.
+func (e *Engine) ifaceContractFor(fn *ssa.Function) (*Contract, *types.Signature) {
+	recv := fn.Signature.Recv()
+	if recv == nil {
+		return nil, nil
+	}
+	for key, con := range e.ifaceCons {
+		i := strings.LastIndex(key, ".")
+		ifaceName, method := key[:i], key[i+1:]
+		if method != fn.Name() {
+			continue
+		}
+		// find the interface type
+		j := strings.Index(ifaceName, ".")
+		var iface *types.Interface
+		var msig *types.Signature
+		for _, p := range e.pkgs {
+			if p.Types.Name() == ifaceName[:j] && strings.HasPrefix(p.PkgPath, repoModule) {
+				if obj := p.Types.Scope().Lookup(ifaceName[j+1:]); obj != nil {
+					if it, ok := obj.Type().Underlying().(*types.Interface); ok {
+						iface = it
+						for k := 0; k < it.NumMethods(); k++ {
+							if it.Method(k).Name() == method {
+								msig = it.Method(k).Type().(*types.Signature)
+							}
+						}
+					}
+				}
+			}
+		}
+		if iface == nil || msig == nil || !types.Implements(recv.Type(), iface) {
+			continue
+		}
+		return con, msig
+	}
+	return nil, nil
+}
